@@ -227,7 +227,7 @@ pub fn c18(cfg: &Cfg) -> i32 {
                         sc.spawn(move || {
                             let mut c = Command::new(&bin);
                             // <rounds> <threads> <depth> <seed> <history_turns> <tail_len>
-                            c.args(["6", &format!("{}", 4 + (k % 3) * 4), "2", &format!("{}", cfg.seed * 1000 + k), &format!("{}", 5 + (k % 4) * 15), &format!("{}", 2000 + k * 500)]).env("TSAN_OPTIONS", "halt_on_error=0 report_signal_unsafe=0");
+                            c.args(["6", &format!("{}", 4 + (k % 3) * 4), "2", &format!("{}", cfg.seed * 1000 + k), &format!("{}", 5 + (k % 4) * 15), &format!("{}", 2000 + k * 500), "0", "0", if k % 2 == 0 { "1" } else { "0" }]).env("TSAN_OPTIONS", "halt_on_error=0 report_signal_unsafe=0");
                             let (code, so, se) = run_cmd(c);
                             (k, code, so, se)
                         })
@@ -265,6 +265,50 @@ pub fn c18(cfg: &Cfg) -> i32 {
         }
     }
 
+    // ---- observer 2b: cold start in fresh native processes (first engine calls made concurrently) ----
+    {
+        let ndir = target.join("sanit-native");
+        let mut c = Command::new("cargo");
+        c.args(["build", "--release", "--offline"]).current_dir(vd.join("sanit")).env("CARGO_TARGET_DIR", &ndir).env("CARGO_NET_OFFLINE", "true").env("CARGO_TERM_COLOR", "never").env_remove("RUSTFLAGS");
+        let (code, _so, se) = run_cmd(c);
+        if code != Some(0) {
+            inconclusive.push(format!("native build of the bare workload failed: {}", tail(&se, 4).replace('\n', " / ")));
+        } else {
+            let bin = ndir.join("release/c18bare");
+            let runs = cfg.n(64, 1000);
+            let outs: Vec<(u64, Option<i32>, String, String)> = std::thread::scope(|sc| {
+                let mut all = vec![];
+                for chunk in (0..runs).collect::<Vec<u64>>().chunks(4) {
+                    let hs: Vec<_> = chunk
+                        .iter()
+                        .map(|k| {
+                            let bin = bin.clone();
+                            let k = *k;
+                            sc.spawn(move || {
+                                let mut c = Command::new(&bin);
+                                c.args(["0", &format!("{}", 4 + (k % 4) * 4), "1", &format!("{}", cfg.seed * 7919 + k), &format!("{}", 2 + k % 9), "100", "0", "0", "1"]);
+                                let (code, so, se) = run_cmd(c);
+                                (k, code, so, se)
+                            })
+                        })
+                        .collect();
+                    for h in hs {
+                        all.push(h.join().unwrap());
+                    }
+                }
+                all
+            });
+            for (k, code, so, se) in outs {
+                sink.count("cold_start_processes");
+                if code == Some(1) || so.contains("MISMATCH") {
+                    sink.violate("C18", "cold_start_result_ne_sequential", format!("C18|cold_start|{}", k), format!("fresh process {}: threads making the first engine calls concurrently disagree with the sequential result: {}", k, tail(&so, 4).replace('\n', " / ")), json!({"kind": "threads", "observer": "cold_start", "run": k}));
+                } else if code != Some(0) {
+                    inconclusive.push(format!("cold-start process {} ended with {:?}: {}", k, code, tail(&se, 3).replace('\n', " / ")));
+                }
+            }
+        }
+    }
+
     // ---- observer 3b: Miri (schedule exploration with weak-memory emulation, leak check) ----
     // two root kinds: setup + a few turns (seeds 0..n) and the scripted third-repetition root at step 3 (seeds 0..n/2)
     {
@@ -290,9 +334,9 @@ pub fn c18(cfg: &Cfg) -> i32 {
 
     let rep = Report {
         evaluations_counter: "nodes_compared",
-        rule: "W12. Observer 1 (build-time): a probe crate requiring Send + Sync of 13 public types (and Arc/Vec/spawn uses) must compile. Observer 2: roots after setup + 0..40 turns, mid-turn roots, W3 roots with shared histories, setup-phase roots, scripted third-repetition roots at step 3 and W5b roots where every turn-ender is withheld (several history lookups with different answers per query; these roots are additionally queried 40 times per thread) are expanded to depth 1-2 by 4..32 threads (shared via Arc, borrowed with concurrent clone/drop threads, or moved clones) in permuted orders with seeded yields/spins between engine calls; every thread's (path, fingerprint) vector must equal the sequential expansion and a deep fingerprint of the root (incl. every history entry) must be unchanged; lists sharing tails of up to 180 000 nodes are dropped from 4..15 threads, and 2-4 threads drop the last handles of one list at the same instant (spin barrier) while drop probes measure the stack span over which the nodes are freed. Observer 3: the same bare workload (no shared monitor state) under ThreadSanitizer (-Zbuild-std) and under Miri -Zmiri-many-seeds. distinct_nontrivial = distinct thread completion orders observed natively.".into(),
+        rule: "W12. Observer 1 (build-time): a probe crate requiring Send + Sync of 13 public types (and Arc/Vec/spawn uses) must compile. Observer 2: roots after setup + 0..40 turns, mid-turn roots, W3 roots with shared histories, setup-phase roots, scripted third-repetition roots at step 3 and W5b roots where every turn-ender is withheld (several history lookups with different answers per query; these roots are additionally queried 40 times per thread) are expanded to depth 1-2 by 4..32 threads (shared via Arc, borrowed with concurrent clone/drop threads, or moved clones) in permuted orders with seeded yields/spins between engine calls; every thread's (path, fingerprint) vector must equal the sequential expansion and a deep fingerprint of the root (incl. every history entry) must be unchanged; lists sharing tails of up to 180 000 nodes are dropped from 4..15 threads, and 2-4 threads drop the last handles of one list at the same instant (spin barrier) while drop probes measure the stack span over which the nodes are freed. Observer 2b: fresh native processes in which 4-16 threads make the very first engine calls at the same instant (cold start: lazily initialised process-wide state) must agree with the sequential result. Observer 3: the same bare workload (no shared monitor state) under ThreadSanitizer (-Zbuild-std) and under Miri -Zmiri-many-seeds. distinct_nontrivial = distinct thread completion orders observed natively.".into(),
         assumptions: vec!["'under every interleaving' is sampled (rounds, TSan runs, Miri seeds), not enumerated".into(), "the Send + Sync half is decided by the compiler on a probe crate (a build-time observation)".into(), "TSan/Miri see only the code the bare workload reaches (all public queries + take_action + clone/drop)".into()],
-        floors: vec![floor("rounds", 5000, 150_000), floor("nodes_compared", 500_000, 20_000_000), floor("distinct_thread_completion_orders", 500, 5000), floor("tsan_runs", 12, 200), floor("tsan_nodes_compared", 10_000, 100_000), floor("miri_seeds_completed", 12, 96), floor("autotrait_probe_builds", 1, 1), floor("longest_shared_history", 20, 30), floor("rounds_root_third_repetition_at_step3", 500, 15_000), floor("rounds_root_saturated_all_withheld", 400, 12_000), floor("simultaneous_last_owner_drop_rounds", 500, 5000)],
+        floors: vec![floor("rounds", 5000, 150_000), floor("nodes_compared", 500_000, 20_000_000), floor("distinct_thread_completion_orders", 500, 5000), floor("tsan_runs", 12, 200), floor("tsan_nodes_compared", 10_000, 100_000), floor("miri_seeds_completed", 12, 96), floor("autotrait_probe_builds", 1, 1), floor("longest_shared_history", 20, 30), floor("rounds_root_third_repetition_at_step3", 500, 15_000), floor("rounds_root_saturated_all_withheld", 400, 12_000), floor("simultaneous_last_owner_drop_rounds", 500, 5000), floor("cold_start_processes", 64, 1000)],
         level: "exploration",
         exhaustive: None,
         extra,
